@@ -53,10 +53,54 @@ def _worker(args):
     except Unsupported as e:
         out.error = f"unsupported by the encoding: {e}"
     except Exception as e:
-        out.error = f"harness error: {type(e).__name__}: {e}\n{traceback.format_exc(limit=8)}"
+        site = library_fault_site(e)
+        if site is not None:
+            # the exception comes out of amaranth_soc (or out of amaranth, called from amaranth_soc) while the harness
+            # was making a call that is legal on the unchanged tree: an internal error of the library, not of the
+            # harness.  (On the unchanged tree no check raises, so this can only be caused by the change under test.)
+            from .bmc import mark_violation
+            from .e1 import cfg_key
+            key = f"internal-error:{type(e).__name__}:{site}"
+            mark_violation(key)
+            out.violations.append({"key": f"{key}@{cfg_key(cfg)}",
+                                   "what": f"{mod.PROPERTY} the library fails with {type(e).__name__}: {str(e)[:120]} "
+                                           f"(raised in {site}) on a use that is legal on the unchanged tree ({cfg_key(cfg)})",
+                                   "query": "internal-error", "exc": type(e).__name__, "site": site, "cfg": cfg,
+                                   "stimulus": [], "prefix": 0, "k": 0, "detail": {}})
+        else:
+            out.error = f"harness error: {type(e).__name__}: {e}\n{traceback.format_exc(limit=8)}"
     except RecursionError as e:   # pragma: no cover
         out.error = f"harness error: RecursionError"
     return out
+
+
+def library_fault_site(exc):
+    """'file.py:function' of the innermost amaranth_soc frame if the traceback leaves the harness (/verif/vt) and ends
+    in amaranth_soc or in code called from it; None if the exception was raised by the harness itself or by a library
+    the harness called directly."""
+    tb = traceback.extract_tb(exc.__traceback__)
+    if any(os.path.basename(fr.filename) == "symex.py" for fr in tb):
+        # under symbolic execution an exception inside the library may be an artefact of the proxies (an operation they
+        # do not support): only a concrete replay can blame the library, and the engine does that itself
+        return None
+    here = os.path.dirname(os.path.abspath(__file__)) + os.sep
+    last_own = max((i for i, fr in enumerate(tb) if os.path.abspath(fr.filename).startswith(here)), default=-1)
+    site = None
+    for fr in tb[last_own + 1:]:
+        if (os.sep + "amaranth_soc" + os.sep) in fr.filename:
+            site = f"{os.path.basename(fr.filename)}:{fr.name}"
+    return site
+
+
+def replay_internal_error(mod, v):
+    """re-run the configuration on the current tree: reproduced iff the same kind of exception leaves the library"""
+    from .bmc import Stats
+    out = Outcome(v["cfg"])
+    try:
+        mod.check(v["cfg"], out, Stats())
+    except Exception as e:
+        return type(e).__name__ == v.get("exc") and library_fault_site(e) is not None
+    return False
 
 
 def _run_forked(mod, work, nproc, seen_event, deadline):
